@@ -233,14 +233,19 @@ def execute(case, ctx):
                 ctx.viol('C10:armor-load-differs:%s' % form, 'a %s loaded from armor (%s) exports other octets than the original' % (st['kind'], form))
         # ---- (3) wrong kind is rejected
         if st.get('wrong_kind'):
-            others = {'message': pgpy.PGPKey, 'cleartext': pgpy.PGPKey, 'pubkey': pgpy.PGPSignature, 'privkey': pgpy.PGPMessage, 'signature': pgpy.PGPKey}
-            ctx.checked()
-            try:
-                others[st['kind']].from_blob(text)
-            except Exception:
-                ctx.probe('wrong_kind_rejected')
-            else:
-                ctx.viol('C10:wrong-kind-accepted:%s' % st['kind'], 'an armored %s was accepted by %s.from_blob' % (st['kind'], others[st['kind']].__name__))
+            # every other class must refuse the block (a cleartext message holds a SIGNATURE block: PGPSignature may read that one)
+            others = {'message': (pgpy.PGPKey, pgpy.PGPSignature), 'cleartext': (pgpy.PGPKey,), 'pubkey': (pgpy.PGPSignature, pgpy.PGPMessage),
+                      'privkey': (pgpy.PGPMessage, pgpy.PGPSignature), 'signature': (pgpy.PGPKey, pgpy.PGPMessage)}
+            for other in others[st['kind']]:
+                for wform in ('str', 'bytes'):
+                    ctx.checked()
+                    try:
+                        other.from_blob(text if wform == 'str' else text.encode('ascii'))
+                    except Exception:
+                        ctx.probe('wrong_kind_rejected')
+                    else:
+                        ctx.viol('C10:wrong-kind-accepted:%s' % st['kind'], 'an armored %s (%s) was accepted by %s.from_blob'
+                                 % (st['kind'], wform, other.__name__))
         # ---- (4) F6: single-character corruption
         lines = text.split('\n')
         bi = [i for i, ln in enumerate(lines) if ln and not ln.startswith('-----') and ': ' not in ln and not ln.startswith('=')]
